@@ -785,7 +785,7 @@ def run(ctx):
                 if b is not None:
                     report_bad(ctx, b, 'replay')
     # code -> spec
-    nv, nr = (2500, 1200) if ctx.quick else (40000, 15000)
+    nv, nr = (2500, 1200) if ctx.quick else (24000, 8000)
     cases = [rand_verdict_case(ctx.rng, i) for i in range(nv)]
     cases += [rand_rewrite_case(ctx.rng, nv + i) for i in range(nr)]
     recs = [r for chunk in dump.pmap('engine.adapters.c04', 'observe_chunk', cases, extra=ctx.seed) for r in chunk]
@@ -836,9 +836,45 @@ def run(ctx):
         'rewrite records under random sampling use strictly positive answer trees (no cancellation)']
 
 
+def _parse_literal(text):
+    """inverse of lit_value for the texts stored in a signature"""
+    v = eval(text, {'__builtins__': {}}, {'i': 1j, 'infty': float('inf')})  # texts written by lit_value only
+    if isinstance(v, list):
+        from mitxgraders.helpers.calc import MathArray
+        return MathArray(v)
+    return v
+
+
 def replay(ctx, rec):
-    sig = rec['signature']
-    print('signature:', sig)
+    """re-run the concrete failing case of a replay file against the current tree; True iff the property holds on it"""
     from engine import repo
     repo.activate()
-    return False
+    from engine.fixtures import ScriptedSampler
+    import mitxgraders
+    sig = rec['signature']
+    print('signature:', sig)
+    cls = getattr(mitxgraders, sig['grader'])
+    cfg = dict(tolerance=sig['tolerance'], answers={'expect': sig['answer'], 'grade_decimal': sig['credit']})
+    if sig['grader'] != 'NumericalGrader':
+        cfg.update(samples=sig['samples'], failable_evals=sig['failable_evals'])
+        if 'samples_xy' in sig:
+            xs = [_parse_literal(a) for a, _ in sig['samples_xy']]
+            ys = [_parse_literal(b) for _, b in sig['samples_xy']]
+            cfg.update(variables=['x', 'y'], sample_from={'x': ScriptedSampler(script=xs), 'y': ScriptedSampler(script=ys)})
+        elif 'sampled' in sig:
+            cfg.update(variables=['x'], sample_from={'x': ScriptedSampler(script=[_parse_literal(t) for t in sig['sampled']])})
+            if sig.get('form') == 'addvar':
+                cfg['variables'].append('d')
+                cfg['sample_from']['d'] = ScriptedSampler(script=[_parse_literal(t) for t in sig['params']])
+        else:
+            cfg.update(variables=['x', 'y', 'z'])
+        if sig['grader'] == 'MatrixGrader':
+            cfg['max_array_dim'] = 2
+    if sig.get('part') == 'inf' and sig['grader'] != 'MatrixGrader':
+        cfg['allow_inf'] = True
+    try:
+        obs = classify(cls(**cfg)(None, sig['student']), sig['credit'])
+    except Exception as e:
+        obs = 'raise:%s' % type(e).__name__
+    print('allowed: %s   observed now: %s' % ('/'.join(sig['allowed']), obs))
+    return obs in sig['allowed']
